@@ -466,8 +466,15 @@ func (x *Exec) builtinCopy(fr *Frame, st *State, call *ssa.CallCommon, args []Va
 		srcCapT = &sc
 	}
 	n := x.C.Name("cpn", Ite(bvCmp("bvult", SlLen(dst), srcLen), SlLen(dst), srcLen))
+	var snapBack *snapOrigin
 	if x.snapRefs[SlBase(dst).S] {
-		return nil, unsupported("copy into snapshot slice")
+		// copy(s.arr[:], src) where s.arr is an array embedded in a struct: the copy goes into the snapshot, then the
+		// whole array is written back to its home — only when the home has not been written since the slice was made
+		so, ok := x.snapOrigins[SlBase(dst).S]
+		if !ok || so.Epoch != st.Epoch || so.HeapS != st.Heap[so.P.Region].S {
+			return nil, unsupported("copy into snapshot slice")
+		}
+		snapBack = &so
 	}
 	h := x.heapGet(st, r, hs)
 	darr := Select(h, SlBase(dst))
@@ -494,7 +501,22 @@ func (x *Exec) builtinCopy(fr *Frame, st *State, call *ssa.CallCommon, args []Va
 	// copy with n == 0 must not touch the heap (dst may be nil)
 	x.noteWrite(SlBase(dst), r)
 	x.heapSet(st, r, Ite(Eq(n, BVInt(0, 64)), h, Store(h, SlBase(dst), narr)))
+	if snapBack != nil {
+		back := x.C.Name("snapback", Ite(Eq(n, BVInt(0, 64)), darr, narr))
+		if err := x.Store(st, snapBack.P, TV{T: back, Typ: snapBack.Typ}); err != nil {
+			return nil, unsupported("copy into snapshot slice: %v", err)
+		}
+		delete(x.snapOrigins, SlBase(dst).S) // the snapshot is stale from here on
+	}
 	return TV{T: n, Typ: types.Typ[types.Int]}, nil
+}
+
+// snapOrigin remembers where a snapshot slice of an interior array came from (see copy above).
+type snapOrigin struct {
+	P     PtrV
+	Typ   types.Type
+	Epoch int
+	HeapS string
 }
 
 func (x *Exec) builtinAppend(fr *Frame, st *State, call *ssa.CallCommon, args []Val) (Val, error) {
